@@ -184,11 +184,46 @@ CLAIMS = {
     design="5/C03", technique="TLC action property over a rescaling state machine + replay with float/complex factor table"),
 }
 
+# what was added after the first version of each check (DESIGN.md 0.3 - 0.5)
+OPS = " Recorded calls on coordinates up to +-9 (denominators up to 3) are validated by TLC against spec/Trace_Ops.tla."
+MOVED = " Used-then-moved variants (harness/moved.py): the object answers, is moved by an exact integer isometry and must answer for its new position."
+ADDED = {
+ "C01": " C01_Complex.tla adds Gaussian-integer coordinates (multilinear expansion of the integer operators); a far-from-origin variant (integer "
+        "translation by 1e8 / 4e5) is compared with exact rational arithmetic; the thorough tier lifts the incidence lemmas to all integers with Apalache.",
+ "C02": " C01_Complex.tla adds Gaussian-integer dependent configurations; the thorough tier lifts the incidence lemmas to all integers with Apalache.",
+ "C03": " Integer representatives whose last coordinate does not divide the others are compared with the float representative.",
+ "C04": " Every case also runs with the elements of each collection rescaled by factors between 0.001 and 2000 (matrices: 0.05 - 30); cross ratio / harmonic "
+        "set / special-position 3D line families were added to the operation table.",
+ "C06": OPS + " Transformation collections of 70 elements, a transformation object reused after item assignment, expand_dims after inverse.",
+ "C07": OPS + " Polytope images vertex by vertex in order; a transformation object reused after item assignment; Apalache lifts the cofactor lemma (thorough).",
+ "C08": " Offsets given as points: scaled, negative and at-infinity (direction) representatives.",
+ "C09": OPS + " Polytope x PointCollection and plane x LineCollection groups; isometry invariance on operands that were already used." ,
+ "C10": OPS + " Complex-dtype and complex-multiple representatives of the hyperplanes; the operand must come out unchanged.",
+ "C11": OPS + " All lattice carrier lines incl. dyadic ones, pencils of lines in 3-space, a = b positions, operands-unchanged and repeated-call checks for collections; "
+        "Apalache lifts the three-term relation (thorough).",
+ "C12": " Three workspace modes (integer, float64 with w = 2, complex128), derive-then-query operations, collections mixing points at infinity with "
+        "non-normalised points.  Second state machine Lifecycle.tla: objects are derived (transformed, translated, copied, given an axis) and edited by "
+        "item assignment with queries interleaved in every order; every answer must be bit-identical to that of the object rebuilt from a fresh root by "
+        "its derive/edit path.",
+ "C13": OPS + MOVED + " Integer centres with w = 2 and integer radii.",
+ "C14": MOVED + " Collection replay (one quadric x LineCollection, QuadricCollection x LineCollection) with mixed scales.",
+ "C15": MOVED + " Exact integer translation far from the origin (classification only).",
+ "C16": OPS + MOVED + " Vertices assigned in place through item assignment.",
+ "C17": OPS + MOVED,
+ "C18": MOVED + " Segments on the supporting line of a polygon edge (exact when the overlap is at most a point), collections mixing collinear pairs, polygon x "
+        "LineCollection and PolygonCollection x line in 3-space.",
+ "C19": " Index items also cover negative numpy integers, stepped and reversed slices, 0-d arrays; point arithmetic on float representatives must leave "
+        "its operands unchanged.",
+ "C20": " Full column rank, dim = 0, tall and wide matrices for null_space/orth; column-major, permuted-axes and read-only inputs; Apalache lifts "
+        "A adj(A) = det(A) I (thorough).",
+}
+
 checks = []
 for p in props:
     c = CLAIMS.get(p["id"])
     if not c:
         continue
+    c = dict(c, text=c["text"] + ADDED.get(p["id"], ""), design=c["design"] + "; 0.3-0.5")
     checks.append({
         "property_id": p["id"],
         "quick_cmd": f"./bin/check {p['id']} quick",
